@@ -8,10 +8,12 @@ package main
 
 import (
 	"fmt"
+	"go/constant"
 	"go/token"
 	"go/types"
 	"os"
 	"sort"
+	"strconv"
 	"strings"
 
 	"golang.org/x/tools/go/ssa"
@@ -263,6 +265,16 @@ func (w *World) argFrom(id string, opts *RunOpts, ex *Extra) {
 						}
 						if c2, isCall := av.(*ssa.Call); isCall && strings.Contains(calleeName(c2), p[1]) {
 							okFlow = true
+						}
+					case strings.HasPrefix(src, "const:"):
+						// the argument is this string constant (const:"" for the empty string)
+						want, err := strconv.Unquote(strings.TrimPrefix(src, "const:"))
+						if err != nil {
+							want = strings.TrimPrefix(src, "const:")
+						}
+						if cv, isC := av.(*ssa.Const); isC && cv.Value != nil && cv.Value.Kind() == constant.String {
+							what = "the constant " + cv.Value.ExactString()
+							okFlow = constant.StringVal(cv.Value) == want
 						}
 					case strings.HasPrefix(src, "field:"):
 						fnm := fieldNameOf(av)
